@@ -381,7 +381,7 @@ func c04Levels(tier string) []core.Level {
 		{Name: "chains of 3 binary operators (27^3) x decorations", Gen: func(emit func(core.Case)) { c04Gen(3, true, emit) }},
 	}
 	if thorough(tier) {
-		lv = append(lv, core.Level{Name: "chains of 4 binary operators (27^4), undecorated", Gen: func(emit func(core.Case)) { c04Gen(4, false, emit) }})
+		lv = append(lv, core.Level{Name: "chains of 4 binary operators (27^4) x decorations", Gen: func(emit func(core.Case)) { c04Gen(4, true, emit) }})
 	}
 	return lv
 }
@@ -390,7 +390,7 @@ func init() {
 	core.Register(&core.Check{
 		ID:       "C04",
 		Category: "exploration",
-		Rule: "every chain x0 op1 x1 .. opk xk over all 27 binary operators, k <= 3 (thorough: k <= 4), each bare and with one unary prefix (not, -, +) at every operand position and with the conditional ?: around it in 5 placements; " +
+		Rule: "every chain x0 op1 x1 .. opk xk over all 27 binary operators, k <= 3 (thorough: k <= 4, decorated as well), each bare and with one unary prefix (not, -, +) at every operand position and with the conditional ?: around it in 5 placements; " +
 			"the reference groups the chain by precedence climbing with its own copy of the documented table and prints the fully parenthesised source; both sources are parsed by the real parser and the public ASTs must be equal modulo GroupExpr " +
 			"(and equal to the reference shape), and for k <= 3 both are executed under 4 valuations and must render identically. distinct = distinct decorated chain; non-trivial = at least two operators or a decoration",
 		Assumptions: []string{
